@@ -131,6 +131,14 @@ def gen(rng, tier):
         aid = new_actor(peer)
         observers.append(aid)
         actors[aid]["ops"] = [["waitclose", T, None]] + probes_for(False)
+    # tasks on the CLOSING side that are blocked in waitclose()/receive() when their own side closes explicitly
+    closer_obs = []
+    if kind == "explicit" and rng.random() < 0.35:
+        for _ in range(rng.choice([1, 1, 2])):
+            aid = new_actor(closer)
+            closer_obs.append(aid)
+            first = rng.choice([["waitclose", T, None], ["drain", T]])
+            actors[aid]["ops"] = [first, ["isclosed", T], ["send", T, "probe", ["none"]], ["waitclose", T, 5.0]]
     extras = []
     if open_probe:
         aid = new_actor(peer)
@@ -151,7 +159,9 @@ def gen(rng, tier):
                 W["ops"].append(["propagate", ["raise_named", "EOFError"]])
         else:
             closer_aid = 1
+            W["ops"] += [["spawn", a] for a in closer_obs]
             W["ops"] += closer_ops
+            W["ops"] += [["join", a, 600] for a in closer_obs]
             W["ops"] += [["latch_wait", "fin", 900]]
         for aid in observers + extras:
             main.append(["spawn", aid])
@@ -168,8 +178,12 @@ def gen(rng, tier):
             W["ops"].append(["join", aid, 600])
         if subject == "s":
             W["ops"].append(["latch_wait", "fin", 900])
+        for a in closer_obs:
+            main.append(["spawn", a])
         main.append(["spawn", closer_aid])
         main.append(["join", closer_aid, 600])
+        for a in closer_obs:
+            main.append(["join", a, 600])
         main.append(["latch_set", "fin"])
     n = 0
     for op in actors[closer_aid]["ops"]:
@@ -203,7 +217,7 @@ def gen(rng, tier):
     return {"gateways": specs, "actors": actors, "knobs": knobs, "strategy": L.gen_strategy(rng),
             "preempt": L.gen_preempt(rng, 3000), "preempt_at": L.gen_preempt_at(rng, ["_local_close", "close", "receive", "_no_longer_opened", "__del__", "send", "waitclose", "executetask"]), "faults": [], "transport": transport, "backend": backend,
             "gwi": gwi, "subject": T, "closer": closer, "kind": kind, "peer": peer, "nitems": k,
-            "closer_aid": closer_aid, "observers": observers, "dir": d, "extras": extras}
+            "closer_aid": closer_aid, "observers": observers, "dir": d, "extras": extras, "closer_obs": closer_obs}
 
 
 def shrink_cases(case):
@@ -246,6 +260,17 @@ def oracle(case, res, hist):
     key0 = f"{kind};{T if T == 's' else 'exec'};closer={case['closer']}"
     allow = {("recv", "EOFError"), ("send", "OSError"), ("propagate", "EOFError"), ("waitclose_open", "TimeoutError")}
     V = L.generic_rules(res, hist, allow_exc=allow, key=key0)
+    for aid in case.get("closer_obs", ()):
+        # woken by the close of its own side: from that moment on the closing side's view applies
+        r0 = hist.ret.get((aid, 0))
+        if r0 is None:
+            continue
+        ric = hist.ret.get((aid, 1))
+        if ric is not None and ric[1] != ("val", True):
+            V.append(v("isclosed-false-after-own-side-close", key0, f"actor {aid} was woken by the close of its own side, isclosed() -> {ric[1]}"))
+        rs = hist.ret.get((aid, 2))
+        if rs is not None and not (rs[1][0] == "exc" and rs[1][1] == "OSError"):
+            V.append(v("send-accepted-after-own-side-close", key0, f"actor {aid} was woken by the close of its own side, send -> {rs[1]}"))
     for aid in case.get("extras", ()):
         r = hist.ret.get((aid, 0))
         if r is not None and not (r[1][0] == "exc" and r[1][1] == "TimeoutError"):
